@@ -116,6 +116,16 @@ def main():
     finally:
         sh(["git", "-C", "/repo", "worktree", "remove", "--force", wt])
         shutil.rmtree(wt, ignore_errors=True)
+    prev_path = os.path.join(HERE, "seeded", name or "%s-%s" % (pid, n), "meta.json")
+    if not suite and os.path.exists(prev_path):
+        try:
+            prev = json.load(open(prev_path))
+            for k in ("suite_with_change", "suite_ok"):
+                if k in prev:
+                    meta[k] = prev[k]
+            meta["ran"].append("suite result carried over from the earlier confirmation of this change: %s" % prev.get("suite_with_change"))
+        except ValueError:
+            pass
     valid = meta.get("applies") and meta.get("only_bromelia") and meta.get("imports") and \
         meta.get("demo_clean_exit") == 0 and meta.get("demo_changed_exit") not in (0, None) and \
         (meta.get("suite_ok", True))
